@@ -28,12 +28,14 @@ def load_findings(prop):
   return [f for f in data.get("findings", []) if f.get("property") == prop]
 
 
-def spawn(prop, tier, seed, shard, nshards, n, deadline, out, cases=None):
+def spawn(prop, tier, seed, shard, nshards, n, deadline, out, cases=None, upto=None):
   cmd = [sys.executable, "-B", "-m", "tflv.shard", prop, "--tier", tier,
          "--seed", str(seed), "--shard", str(shard), "--nshards", str(nshards),
          "--n", str(n), "--deadline", str(deadline), "--out", out]
   if cases:
     cmd += ["--cases", cases]
+  if upto is not None:
+    cmd += ["--upto", str(upto)]
   log = open(out + ".log", "w")
   return subprocess.Popen(cmd, stdout=log, stderr=subprocess.STDOUT, cwd=HERE)
 
@@ -118,6 +120,19 @@ def _run(prop, tier, seed, nshards, n, deadline, jobs, work, a, t0):
       print("INCONCLUSIVE property=%s reason=replay-process-failed" % prop)
       return 2
     res = json.load(open(out))
+    org = rep.get("origin")
+    if not res["violations"] and org and org.get("index") is not None:
+      # the case alone is clean: the violation needed the history of its process (state left behind by earlier cases).
+      # Re-run that shard's deterministic case sequence 0..index in one fresh process.
+      print("replay: the case alone held; re-running its history (shard %s/%s, cases 0..%s)" % (org["shard"], org["nshards"], org["index"]))
+      out2 = os.path.join(work, "replay_history.json")
+      p = spawn(prop, org.get("tier", tier), org.get("seed", seed), org["shard"], org["nshards"], org["n"], deadline, out2, upto=org["index"])
+      p.wait()
+      if not os.path.exists(out2):
+        print(open(out2 + ".log").read()[-4000:])
+        print("INCONCLUSIVE property=%s reason=replay-process-failed" % prop)
+        return 2
+      res = json.load(open(out2))
     for v in res["violations"]:
       print("  witness: %s: %s finding=%s" % (v["site"], v["msg"], v["finding"]))
       if v.get("info"):
@@ -249,7 +264,8 @@ def _run(prop, tier, seed, nshards, n, deadline, jobs, work, a, t0):
       seen.add(d)
       path = os.path.join(rdir, "%s.json" % d)
       json.dump({"property": prop, "seed": seed, "tier": tier, "site": v["site"],
-                 "msg": v["msg"], "info": v["info"], "case": v["case"]},
+                 "msg": v["msg"], "info": v["info"], "case": v["case"],
+                 "origin": {"seed": seed, "tier": tier, "shard": v.get("shard"), "nshards": nshards, "n": n, "index": v.get("index")}},
                 open(path, "w"), indent=1)
       replay_paths.append(os.path.relpath(path, HERE))
 
